@@ -340,11 +340,15 @@ def check_theorems(pid, extra_files=()):
     """Compile coq/Properties/<pid>.v afresh (after making its dependencies) and
     return (n_theorems, axioms list, output).  Raises BuildError when a proof
     obligation no longer checks."""
-    vfile = 'Properties/%s.v' % pid
-    coq_make(targets=['Properties/%s.vo' % pid])     # the .vo closure of this property only
+    # Properties/<pid>.v plus any companion files Properties/<pid>_<topic>.v (statements only, same rules)
+    vfiles = ['Properties/%s.v' % pid] + sorted('Properties/' + os.path.basename(f)
+                                                for f in glob.glob(os.path.join(COQ, 'Properties', pid + '_*.v')))
+    coq_make(targets=[f + 'o' for f in vfiles])     # the .vo closure of this property only
+    out, src = '', ''
     with _Lock():
-        out = sh('timeout 1500 coqc -Q . OW %s' % vfile, cwd=COQ)
-    src = open(os.path.join(COQ, vfile)).read()
+        for vfile in vfiles:
+            out += sh('timeout 1500 coqc -Q . OW %s' % vfile, cwd=COQ) + '\n'
+            src += open(os.path.join(COQ, vfile)).read() + '\n'
     names = re.findall(r'^\s*(?:Theorem|Lemma|Corollary|Example)\s+(\w+)', src, re.M)
     # forbid escape hatches anywhere in the development
     bad = forbidden_scan()
